@@ -395,8 +395,10 @@ def proj_variants(proj):
 def option_arms(fn, call):
     """Where control goes depending on whether the Option/Result returned by `call` is
     None/Err ('none') or Some/Ok ('some'): looks at direct `match`/`if let` switches on the result
-    and at `?` (Try::branch + ControlFlow switch).  Returns {'none': [bb…], 'some': [bb…], 'switches': n}."""
-    out = {"none": [], "some": [], "switches": 0}
+    and at `?` (Try::branch + ControlFlow switch).  Re-tests of the same discriminant that are dominated by an earlier
+    test (drop elaboration re-switches on an already known variant) are ignored.
+    Returns {'none': [bb…], 'some': [bb…], 'switches': n}."""
+    found = []  # (switch block, none target, some target)
     branch_calls = []
     for c in fn.calls:
         if c.name == "branch" and c.args and any(o.kind == "call" and o.ref is call and not o.proj for o in fn.trace_operand(c.args[0])):
@@ -409,21 +411,14 @@ def option_arms(fn, call):
         en = si["enum"]
         if any(o.kind == "call" and o.ref is call and not [p for p in o.proj if p != "*" and p != "&"] for o in roots):
             if en.startswith("core::option::Option"):
-                out["none"].append(si["arms"].get("None"))
-                out["some"].append(si["arms"].get("Some"))
-                out["switches"] += 1
+                found.append((bi, si["arms"].get("None"), si["arms"].get("Some")))
             elif en.startswith("core::result::Result"):
-                out["none"].append(si["arms"].get("Err"))
-                out["some"].append(si["arms"].get("Ok"))
-                out["switches"] += 1
+                found.append((bi, si["arms"].get("Err"), si["arms"].get("Ok")))
         for bc in branch_calls:
             if any(o.kind == "call" and o.ref is bc and not o.proj for o in roots) and "ControlFlow" in en:
-                out["none"].append(si["arms"].get("Break"))
-                out["some"].append(si["arms"].get("Continue"))
-                out["switches"] += 1
-    out["none"] = [b for b in out["none"] if b is not None]
-    out["some"] = [b for b in out["some"] if b is not None]
-    return out
+                found.append((bi, si["arms"].get("Break"), si["arms"].get("Continue")))
+    first = [x for x in found if not any(y[0] != x[0] and fn.dominates(y[0], x[0]) for y in found)]
+    return {"none": [x[1] for x in first if x[1] is not None], "some": [x[2] for x in first if x[2] is not None], "switches": len(first)}
 
 
 def assigns_ret_variant(fn, blocks, variant):
@@ -458,3 +453,9 @@ def bool_arms(fn, call):
                 t, f = si["arms"]["true"], si["arms"]["false"]
                 return {"true": f if neg else t, "false": t if neg else f, "switch": bi}
     return None
+
+
+def path_avoiding(fn, start, avoid, targets):
+    """is some block of `targets` reachable from `start` without entering any block of `avoid`?"""
+    blocks = fn.reachable_from(start, stop=list(avoid))
+    return bool(set(targets) & blocks)
